@@ -25,7 +25,7 @@ tvars == <<mvars, l, viol, taint>>
 PendingKupdKeys(t) == UNION {{pend[u][i].k : i \in {j \in DOMAIN pend[u] : pend[u][j].op = "kupd"}} : u \in {x \in DOMAIN st : x # t /\ st[x] = "active"}}
 TargetKeys(e) == CASE e.k = "pread" -> {e.a}
                    [] e.k = "rread" -> e.a..e.b
-                   [] e.k \in {"del", "upd", "kupd", "rupd"} -> {e.a}
+                   [] e.k \in {"del", "upd", "kupd", "rupd", "supd"} -> {e.a}
                    [] OTHER -> {}
 Pattern(e) == e.res = "ok" /\ TargetKeys(e) \cap PendingKupdKeys(e.t) # {}
 V(tag, ln, info) == <<[tag |-> tag, line |-> ln, info |-> info, kf |-> IF taint THEN "KF-C04-kupd-hides-row" ELSE "new"]>>
